@@ -65,6 +65,25 @@ def c09(ctx):
                         "flush loses the buffered data); file backend"]
 
 
+def edge_sweep(ctx, lib):
+    """Lengths next to the powers of two up to 1 MiB (the value, and its encrypted form, crossing a length field, a buffer
+    or a limit of the store): for each, a private token object made by C_CreateObject and by a privacy-raising
+    C_CopyObject must persist - judged like everything else by Trace_Store (acting library, new process, decoder)."""
+    from vf.drv_store import StoreDriver
+    n = len(StoreDriver.EDGES)
+    y, big = ["lab", "y"], ["val", "big"]
+    behs = []
+    for size in StoreDriver.EDGES:
+        behs.append([["MEdge", size], ["MCreate", True, True, [["lab", "x"], big]], ["MRestart"], ["MSet", 1, [y]], ["MRestart"]])
+        behs.append([["MEdge", size], ["MCreate", True, False, [big]], ["MCopy", 1, True, True, []], ["MRestart"],
+                     ["MDestroy", 1], ["MRestart"]])
+    st = pipeline.replay_validate(ctx, "c05-edges", "vf.drv_store", [lib, "file", "1", "0077"],
+                                  behs, "Trace_Store", {"Obs": tla_set(["api", "fresh", "disk"])}, invariants=INV, jobs=15)
+    pipeline.report_rejections(ctx, "c05-edges", st, "vf.drv_store", [lib, "file", "1", "0077"])
+    ctx.coverage["value_length_edges"] = dict(lengths=StoreDriver.EDGES, executions=st.executions, accepted=st.accepted)
+    ctx.coverage["traces_validated_against_impl"] += st.accepted
+
+
 def c05(ctx):
     quick = ctx.tier == "quick"
     acts = '{"create", "set", "copy", "destroy", "restart"}'
@@ -82,6 +101,8 @@ def c05(ctx):
               "directory must all show exactly the specification's state (destroyed objects gone, session objects "
               "only in their library instance); plus the golden fixtures written by the pinned version.")
     fixtures(ctx, lib)
+    if not ctx.violations:
+        edge_sweep(ctx, lib)
     # "session objects never outlive their session": the session semantics live in P11Core
     from checks import core
     cc = core.consts(Tokens='{"t1"}', Acts='{"sess", "obj", "copy", "find", "rightpin"}', MaxH="4", MaxO="2",
